@@ -4,8 +4,10 @@ import (
 	"context"
 	"fmt"
 	"net"
+	"runtime"
 	"strings"
 	"sync"
+	"sync/atomic"
 	"testing"
 	"time"
 
@@ -190,5 +192,114 @@ func TestVP_C17_Forward(t *testing.T) {
 		open = nil
 		verify()
 		st.Case(strings.Join(hist, "; "), nt)
+	})
+}
+
+// TestVP_C17_ForwardConcurrent: the forward handler under tunnels of several peers that are
+// opened and ended at the same time (see the exit handler's twin).
+func TestVP_C17_ForwardConcurrent(t *testing.T) {
+	st := vp.NewStats("C17", "forward-concurrent", "forward.Handler: 2-8 workers x 5-40 open/end cycles each, concurrently (keys: echo, target closes at once, dead target, unknown), ends by close / reset+close / three racing closers / peer-wide cleanup of a private peer; afterwards ConnectionCount() == 0; non-trivial = at least 4 workers")
+	defer st.Flush()
+	vpF17Once.Do(func() {
+		var err error
+		vpF17Echo, err = harn.Listen("echo", "127.0.0.1:0", true)
+		if err != nil {
+			t.Fatalf("listen: %v", err)
+		}
+		vpF17Shut, err = net.Listen("tcp", "127.0.0.1:0")
+		if err != nil {
+			t.Fatalf("listen: %v", err)
+		}
+		go func() {
+			for {
+				c, err := vpF17Shut.Accept()
+				if err != nil {
+					return
+				}
+				c.Close()
+			}
+		}()
+	})
+	_, remotePub, _ := crypto.GenerateEphemeralKeypair()
+	var base uint64 = 1 << 41
+	rapid.Check(t, func(t *rapid.T) {
+		cfg := forward.DefaultHandlerConfig()
+		cfg.ConnectTimeout = time.Second
+		cfg.MaxConnections = 0
+		cfg.Endpoints = []forward.Endpoint{
+			{Key: "echo", Target: fmt.Sprintf("127.0.0.1:%d", vpF17Echo.Port)},
+			{Key: "shut", Target: vpF17Shut.Addr().String()},
+			{Key: "dead", Target: "127.0.0.1:1"},
+		}
+		w := harn.NewWriter()
+		h := forward.NewHandler(cfg, identity.AgentID{9}, w)
+		h.Start()
+		defer h.Stop()
+		g := rapid.IntRange(2, 8).Draw(t, "workers")
+		k := rapid.IntRange(5, 40).Draw(t, "cycles")
+		plan := make([][]int, g)
+		for i := range plan {
+			plan[i] = rapid.SliceOfN(rapid.IntRange(0, 23), k, k).Draw(t, fmt.Sprintf("plan%d", i))
+		}
+		base += 1 << 20
+		var wg sync.WaitGroup
+		var noReply atomic.Int64
+		for i := 0; i < g; i++ {
+			wg.Add(1)
+			go func(i int) {
+				defer wg.Done()
+				private := identity.AgentID{byte(20 + i)}
+				for j, code := range plan[i] {
+					id := base + uint64(i)<<12 + uint64(j)*2
+					peer := []identity.AgentID{{7}, {8}, private}[code%3]
+					key := []string{"echo", "dead", "nokey", "shut"}[(code/3)%4]
+					end := code / 12
+					h.HandleStreamOpen(context.Background(), id, id, peer, key, remotePub)
+					if _, ok := w.WaitReply(id, 1, 5*time.Second); !ok {
+						noReply.Add(1)
+						continue
+					}
+					switch {
+					case end == 0:
+						h.HandleStreamClose(peer, id)
+					case end == 1 && peer == private:
+						h.ClosePeerConnections(peer)
+					case end == 1:
+						var cw sync.WaitGroup
+						var rdy atomic.Int64
+						for _, f := range []func(){
+							func() { h.HandleStreamClose(peer, id) },
+							func() { h.HandleStreamReset(peer, id, 1) },
+							func() { h.HandleStreamClose(peer, id) },
+						} {
+							cw.Add(1)
+							go func(f func()) {
+								defer cw.Done()
+								rdy.Add(1)
+								for rdy.Load() < 3 {
+									runtime.Gosched()
+								}
+								f()
+							}(f)
+						}
+						cw.Wait()
+					default:
+						h.HandleStreamReset(peer, id, 1)
+						h.HandleStreamClose(peer, id)
+					}
+				}
+			}(i)
+		}
+		wg.Wait()
+		if noReply.Load() > 0 {
+			t.Fatalf("VPFAIL C17 %d concurrent forward opens were never answered", noReply.Load())
+		}
+		for i := 0; i < 4000 && h.ConnectionCount() != 0; i++ {
+			time.Sleep(500 * time.Microsecond)
+		}
+		st.Case(fmt.Sprintf("workers=%d cycles=%d", g, k), g >= 4, fmt.Sprintf("workers-%d", g))
+		if c := h.ConnectionCount(); c != 0 {
+			t.Fatalf("VPFAIL C17 forward handler still counts %d connections after %d workers x %d concurrent open/end cycles, every tunnel ended", c, g, k)
+		}
 	})
 }
